@@ -18,7 +18,9 @@ RULE = (
     "Entry points per case: PLSSDesc(text, config, [layout], parse_qq), "
     ".parse(commit=False, **keywords), .parse_tracts(**keywords), "
     "Tract(text, config, parse_qq=True), .parse(**keywords), .preprocess(), "
-    "str()/repr(). Refuted by any exception or an empty tract list. Separate "
+    "str()/repr(), deduce_layout(), quick_desc / pretty_desc / list_trs, "
+    "find_twprge(preprocess=True), find_sec, TractList.from_multiple, "
+    "TRSList(tracts). Refuted by any exception or an empty tract list. Separate "
     "family: invalid arguments must raise only the documented types. "
     "Non-trivial: text has a Twp/Rge-like and a section-like token, or a "
     "layout / colon mode / segment / sec_within is set. Distinct by (text, "
@@ -100,7 +102,14 @@ def run_valid(case, ctx, pytrs):
                 d.parse_tracts(**CF.tract_parse_kwargs(kw))
                 ctx.hit('boundary:parse_tracts')
                 d.preprocess()
+                d.preprocess(commit=True, ocr_scrub=bool(kw.get('ocr_scrub')))
+                d.deduce_layout()
                 str(d), repr(d), d.quick_desc(), d.pretty_desc()
+                d.quick_desc_short(), d.list_trs(), d.tracts_to_dict('trs', 'desc', 'lots_qqs')
+                pytrs.find_twprge(text, preprocess=True)
+                pytrs.find_sec(text)
+                pytrs.TractList.from_multiple(d, d.tracts)
+                pytrs.TRSList(d.tracts)
                 tcfg = case['cfgtext'] if case['channel'] != 'none' else None
                 t = pytrs.Tract(text, config=tcfg, parse_qq=True)
                 ctx.hit('boundary:Tract')
